@@ -95,6 +95,28 @@ def w_effects(job):
         shutil.rmtree(d, ignore_errors=True)
 
 
+def w_long(job):
+    """a long plain bulk batch (what a palette or a stylesheet's worth of pairs looks like) in a private directory"""
+    import sys
+    pairs, mode, very = job
+    d = tempfile.mkdtemp(prefix="cmv_c17_")
+    cwd = os.getcwd()
+    os.chdir(d)
+    try:
+        sys.stdout = sys.__stdout__
+        from cm_colors import make_readable_bulk
+        with Capture() as c:
+            try:
+                out = make_readable_bulk(pairs, mode=mode, very_readable=very)
+                err = None
+            except Exception as ex:  # noqa
+                out, err = None, type(ex).__name__ + ": " + str(ex)[:150]
+        return {"n": len(pairs), "err": err, "results": None if out is None else len(out), "stdout": c.out[0][:80], "stderr": c.out[1][:80], "files": c.new}
+    finally:
+        os.chdir(cwd)
+        shutil.rmtree(d, ignore_errors=True)
+
+
 def check(run):
     run.proof = proof_status("C17")
     q = run.quick()
@@ -163,6 +185,26 @@ def check(run):
             run.violation("bulk results with save_report differ from the plain call's", case)
         if any(f != DOCUMENTED["bulk"] for f in new):
             run.violation("make_readable_bulk(save_report=True) wrote a file other than the documented report", case, files=new)
+    # long plain batches: silence must not depend on the size of the list
+    from opt_common import pool as _pool
+    longs = []
+    for n in ((50, 64, 130) if run.quick() else (50, 51, 64, 100, 130, 257, 400)):
+        items = []
+        for k in range(n):
+            g = run.rng.choice([0, 17, 34, 51, 68, 85, 102, 119, 136])       # mostly readable on white: cheap, a few need fixing
+            items.append(("#%02x%02x%02x" % (g, g, g), "#ffffff") if k % 3 else ((g, g, g), "white", bool(k % 2)))
+        longs.append((items, run.rng.choice([0, 1, 2]), bool(run.rng.randrange(2))))
+    with _pool() as pl:
+        lres = pl.map(w_long, longs, chunksize=1)
+    for (items, mode, very), r in zip(longs, lres):
+        case = {"flow": "make_readable_bulk(pairs) - plain call", "entries": r["n"], "first_entries": repr(items[:3]), "mode": mode, "very_readable": very}
+        run.count(("long", r["n"], mode, very))
+        run.hit("long_batch")
+        if r["err"]:
+            run.violation("a long bulk batch raised", case, got=r["err"])
+        elif r["stdout"] or r["stderr"] or r["files"] or r["results"] != r["n"]:
+            run.violation("a long plain bulk batch wrote to stdout/stderr, created files or lost entries", case,
+                          stdout=repr(r["stdout"]), stderr=repr(r["stderr"]), files=r["files"], results=r["results"])
     run.sample({"job": repr(res[0]["job"]), "plain": repr(res[0].get("plain")), "silent(stdout,stderr,files)": res[0].get("silent"),
                 "show": repr(res[0].get("show"))})
     run.assumptions = ["rich's rendering of '#rrggbb' colours (the preview's only inputs, by theorem preview_args_hex) is trusted; it is exercised on every case",
